@@ -327,8 +327,12 @@ def cycle_memo(ctx):
     t = [t for t in st.targets if isinstance(t, ast.Subscript)][0]
     ok = isinstance(t.slice, ast.Call) and is_name(t.slice.func, 'id') and is_name(t.slice.args[0], spec)
     ctx.ob(ok, u, 'the memo is keyed by the identity of the container being rebuilt: %s' % norm(st), node=st)
+    # the object being filled: a second target of the same assignment, or (normal form of the
+    # chained assignment) the local whose value is stored
     res = [x.id for x in st.targets if isinstance(x, ast.Name)]
-    ctx.ob(len(res) == 1, u, 'the memo holds the very object being filled (same assignment): %s' % norm(st))
+    if not res and is_name(st.value):
+        res = [st.value.id]
+    ctx.ob(len(res) == 1, u, 'the memo holds the very object being filled: %s' % norm(st))
     sn = cfg.node_of(st)
     # every recursive evaluation under the list/dict test comes after the store
     g = [a for a in ancestors(st) if isinstance(a, ast.If)]
